@@ -18,6 +18,7 @@ import unified_planning as up
 import unified_planning.engines as engines
 from unified_planning.engines.mixins.compiler import CompilationKind, CompilerMixin
 from unified_planning.engines.results import CompilerResult
+from unified_planning.engines.compilers.utils import rewritten_problem_kind
 from unified_planning.model import (
     Problem,
     ProblemKind,
@@ -162,7 +163,7 @@ class UndefinedInitialNumericRemover(engines.engine.Engine, CompilerMixin):
         problem_kind: ProblemKind, compilation_kind: Optional[CompilationKind] = None
     ) -> ProblemKind:
         """Returns the `ProblemKind` of the problem resulting from this compilation."""
-        new_kind = problem_kind.clone()
+        new_kind = rewritten_problem_kind(problem_kind)
         if new_kind.has_undefined_initial_numeric():
             # every fluent with an undefined initial value is given one by the compilation
             new_kind.unset_initial_state("UNDEFINED_INITIAL_NUMERIC")
